@@ -85,7 +85,9 @@ func c17RunProf(r *h.Result, c *c17ProfCase) (string, string, error) {
 	if len(parts) > 0 {
 		pl = strings.Join(parts, ",")
 	}
-	op := fmt.Sprintf("c17profsql profiles_series_gin %s %s %s", h.Hex([]byte(d(c.From))), h.Hex([]byte(d(c.To))), pl)
+	// lower bound: date of (start − 30 min); upper bound: the UTC date of the end (after the C13 fix of A26)
+	dTo := time.Unix(c.To, 0).UTC().Format("2006-01-02")
+	op := fmt.Sprintf("c17profsql profiles_series_gin %s %s %s", h.Hex([]byte(d(c.From))), h.Hex([]byte(dTo)), pl)
 	return op, h.Hex([]byte(c17Collapse(text))), nil
 }
 
